@@ -18,6 +18,7 @@ import (
 	"io"
 	"reflect"
 	"sort"
+	"strings"
 	"sync"
 	"time"
 
@@ -78,6 +79,20 @@ type respIn struct {
 type writeIn struct {
 	Pkt  pktIn    `json:"pkt"`
 	Resp []respIn `json:"resp"` // answers of the transport to the calls made during this Write
+	// the local-stream binding whose writer the application uses for this Write (0 = the binding made
+	// at the start, k = the k-th entry of caseIn.Binds); a binding that does not exist yet or whose
+	// stream has been unbound is replaced by the latest binding
+	Via int `json:"via,omitempty"`
+}
+
+// one more BindLocalStream on the same chain while the application is writing (renegotiation, a
+// second local stream): executed right before write number After (after the last write if After is
+// larger), with a next writer of its own.  SSRC 0 = the SSRC of the case's stream (the stream is
+// bound AGAIN); Unbind = UnbindLocalStream of the live stream with that SSRC first.
+type bindIn struct {
+	After  int    `json:"after"`
+	SSRC   uint32 `json:"ssrc,omitempty"`
+	Unbind bool   `json:"unbind,omitempty"`
 }
 
 type readIn struct {
@@ -139,6 +154,8 @@ type caseIn struct {
 	// this order (0 UnbindLocalStream, 1 UnbindRemoteStream, 2 Close); empty (old replay files) =
 	// [0 1 2].  Any order and repeated Unbinds are legal; a history without a Close gets one appended.
 	Teardown []int `json:"td,omitempty"`
+	// further local-stream bindings made during the writes (sorted by After); empty = old replay files
+	Binds []bindIn `json:"binds,omitempty"`
 }
 
 // the teardown history as it is executed
@@ -355,6 +372,8 @@ type call struct {
 	// the objects the writer was handed (re-read later: aliasing)
 	hp *rtp.Header
 	pp []byte
+	// the binding whose next writer received the call
+	dst int
 }
 
 type ccall struct {
@@ -378,9 +397,23 @@ type transport struct {
 }
 
 func (t *transport) Write(h *rtp.Header, payload []byte, a interceptor.Attributes) (int, error) {
+	return t.write(0, h, payload, a)
+}
+
+// the next writer handed to the k-th BindLocalStream of the case
+type bindWriter struct {
+	t  *transport
+	id int
+}
+
+func (w bindWriter) Write(h *rtp.Header, payload []byte, a interceptor.Attributes) (int, error) {
+	return w.t.write(w.id, h, payload, a)
+}
+
+func (t *transport) write(dst int, h *rtp.Header, payload []byte, a interceptor.Attributes) (int, error) {
 	t.mu.Lock()
 	defer t.mu.Unlock()
-	c := call{h: h.Clone(), payload: append([]byte{}, payload...), hp: h, pp: payload}
+	c := call{h: h.Clone(), payload: append([]byte{}, payload...), hp: h, pp: payload, dst: dst}
 	op, ok := a[markerKey{}].(int)
 	if !ok {
 		t.async = append(t.async, c)
@@ -818,6 +851,10 @@ type wobs struct {
 	calls []int
 	n     int
 	errs  []int64
+	// RTP writes: the binding the Write went through; calls that reached ANOTHER binding's next
+	// writer (binding, packet)
+	via   int
+	stray [][2]int
 }
 
 type robs struct {
@@ -841,6 +878,10 @@ type result struct {
 	crops    []robs
 	cwops    []wobs
 	closeNil bool
+	cerrTerm string  // the Close error as a tree (option err)
+	cerrLine []int64 // the lines of its message, as signed sentinel ids
+	bssrc    []int64 // info.SSRC of every local-stream binding, in the order they were made
+	unbound  []int64 // SSRCs of the local streams unbound between two bindings
 	is       [][2]int64
 	ctrs     [][3]int64
 	tds      []tdob // one per call of the teardown history
@@ -917,6 +958,80 @@ func errIDs(err error, sent map[int]error) []int64 {
 	sort.Slice(out, func(i, j int) bool { return out[i] < out[j] })
 
 	return out
+}
+
+// the members of a multiError / joined error (false: e is a single error value)
+func multiChildren(e error) ([]error, bool) {
+	if u, ok := e.(interface{ Unwrap() []error }); ok { //nolint:errorlint
+		return u.Unwrap(), true
+	}
+	v := reflect.ValueOf(e)
+	if v.Kind() == reflect.Slice && v.Type().Elem() == reflect.TypeOf((*error)(nil)).Elem() {
+		out := make([]error, v.Len())
+		for i := range out {
+			out[i], _ = v.Index(i).Interface().(error)
+		}
+
+		return out, true
+	}
+
+	return nil, false
+}
+
+// one error value handed back by a member: id = that sentinel value itself, -id = a value of its
+// own that wraps the sentinel, 900 = something no member returned, 0 = nil
+func leafID(e error, sent map[int]error) int64 {
+	if e == nil {
+		return 0
+	}
+	ids := make([]int, 0, len(sent))
+	for id := range sent {
+		ids = append(ids, id)
+	}
+	sort.Ints(ids)
+	for _, id := range ids {
+		if e == sent[id] { //nolint:errorlint
+			return int64(id)
+		}
+	}
+	for _, id := range ids {
+		if errors.Is(e, sent[id]) {
+			return -int64(id)
+		}
+	}
+
+	return 900
+}
+
+// the error a Close returned, as a tree: what flattenErrs kept, entry by entry, nested chains nested
+func errTerm(e error, sent map[int]error) string {
+	if ch, ok := multiChildren(e); ok {
+		sub := make([]string, 0, len(ch))
+		for _, x := range ch {
+			if x == nil {
+				sub = append(sub, cq.C("ELeaf", "0"))
+			} else {
+				sub = append(sub, errTerm(x, sent))
+			}
+		}
+
+		return cq.C("EMulti", cq.L(sub))
+	}
+
+	return cq.C("ELeaf", cq.Z(leafID(e, sent)))
+}
+
+// one line of the Close error's message
+func lineID(s string) int64 {
+	var id int64
+	if n, err := fmt.Sscanf(s, "wrapped: sentinel-%d", &id); err == nil && n == 1 && s == fmt.Sprintf("wrapped: sentinel-%d", id) {
+		return -id
+	}
+	if n, err := fmt.Sscanf(s, "sentinel-%d", &id); err == nil && n == 1 && s == fmt.Sprintf("sentinel-%d", id) {
+		return id
+	}
+
+	return 900
 }
 
 func mapID(a interceptor.Attributes) uintptr {
@@ -1049,20 +1164,87 @@ func runCase(in caseIn) (res *result) { //nolint:cyclop,gocyclo,gocognit,maintid
 		return rtpScript(b, a)
 	}})
 
-	for _, ch := range b.started {
-		<-ch
+	nStarted := 0
+	waitStarted := func() {
+		for ; nStarted < len(b.started); nStarted++ {
+			<-b.started[nStarted]
+		}
 	}
+	waitStarted()
+	// the local-stream bindings of the case: the one made above and those of in.Binds
+	type binding struct {
+		info *interceptor.StreamInfo
+		w    interceptor.RTPWriter
+		live bool
+	}
+	bnds := []binding{{info: info, w: lw, live: true}}
+	res.bssrc = []int64{int64(c.SSRC)}
+	snapTD := func(op int) {
+		snap := tdob{op: op}
+		for _, m := range b.mocks {
+			m.mu.Lock()
+			snap.ctrs = append(snap.ctrs, [3]int64{int64(m.closed), int64(m.unbL), int64(m.unbR)})
+			m.mu.Unlock()
+		}
+		res.tds = append(res.tds, snap)
+	}
+	doBind := func(bi bindIn) {
+		ssrc := bi.SSRC
+		if ssrc == 0 {
+			ssrc = c.SSRC
+		}
+		if bi.Unbind {
+			// the stream with this SSRC is removed first (its writers are not used any more)
+			var old *interceptor.StreamInfo
+			for k := range bnds {
+				if bnds[k].live && bnds[k].info.SSRC == ssrc {
+					old = bnds[k].info
+					bnds[k].live = false
+				}
+			}
+			if old != nil {
+				chain.UnbindLocalStream(old)
+				res.unbound = append(res.unbound, int64(ssrc))
+				snapTD(0) // a lifecycle call like those of the teardown history: delivery is observed
+			}
+		}
+		ni := *info
+		ni.SSRC = ssrc
+		k := len(bnds)
+		w := chain.BindLocalStream(&ni, bindWriter{t: tr, id: k})
+		waitStarted()
+		bnds = append(bnds, binding{info: &ni, w: w, live: true})
+		res.bssrc = append(res.bssrc, int64(ssrc))
+	}
+	viaOf := func(v int) int {
+		if v >= 0 && v < len(bnds) && bnds[v].live {
+			return v
+		}
+		for k := len(bnds) - 1; k >= 0; k-- {
+			if bnds[k].live {
+				return k
+			}
+		}
+
+		return len(bnds) - 1
+	}
+	nextBind := 0
 	// ---- RTP writes
 	for i, w := range in.Writes {
+		for nextBind < len(in.Binds) && in.Binds[nextBind].After <= i {
+			doBind(in.Binds[nextBind])
+			nextBind++
+		}
+		via := viaOf(w.Via)
 		h := w.Pkt.H.build()
 		payload := w.Pkt.payload()
 		keep := append([]byte{}, payload...)
 		orig := h.Clone()
-		n, werr := lw.Write(&h, payload, interceptor.Attributes{markerKey{}: i})
+		n, werr := bnds[via].w.Write(&h, payload, interceptor.Attributes{markerKey{}: i})
 		if !bytes.Equal(keep, payload) {
 			res.flags[0]++
 		}
-		o := wobs{pi: res.tbl.rtp(&orig, keep, c), n: n, errs: errIDs(werr, b.sentinels)}
+		o := wobs{pi: res.tbl.rtp(&orig, keep, c), n: n, errs: errIDs(werr, b.sentinels), via: via}
 		hp, pp := &h, payload
 		ao := &aob{kind: 1, op: i, cp: []int64{int64(o.pi)}}
 		ao.recheckC = func() []int64 { return []int64{int64(res.tbl.rtp(hp, pp, c))} }
@@ -1070,6 +1252,12 @@ func runCase(in caseIn) (res *result) { //nolint:cyclop,gocyclo,gocognit,maintid
 		tr.mu.Lock()
 		for _, cl := range tr.calls[i] {
 			cl := cl
+			if cl.dst != via {
+				// the packet left through the next writer of another binding
+				o.stray = append(o.stray, [2]int{cl.dst, res.tbl.rtp(&cl.h, cl.payload, c)})
+
+				continue
+			}
 			o.calls = append(o.calls, res.tbl.rtp(&cl.h, cl.payload, c))
 			fec := c.FecSSRC != 0 && c.FecPT != 0 && cl.h.SSRC == c.FecSSRC && cl.h.PayloadType == c.FecPT
 			if !fec && ao.tret == nil {
@@ -1085,6 +1273,9 @@ func runCase(in caseIn) (res *result) { //nolint:cyclop,gocyclo,gocognit,maintid
 		tr.sent[orig.SequenceNumber] = append(tr.sent[orig.SequenceNumber], keep)
 		tr.mu.Unlock()
 		res.wops = append(res.wops, o)
+	}
+	for ; nextBind < len(in.Binds); nextBind++ {
+		doBind(in.Binds[nextBind])
 	}
 	// ---- NACK feedback through the chain (responder retransmits asynchronously)
 	buf := make([]byte, 2048)
@@ -1351,15 +1542,16 @@ func runCase(in caseIn) (res *result) { //nolint:cyclop,gocyclo,gocognit,maintid
 				cerr, closedOnce = e, true
 			}
 		}
-		snap := tdob{op: op}
-		for _, m := range b.mocks {
-			m.mu.Lock()
-			snap.ctrs = append(snap.ctrs, [3]int64{int64(m.closed), int64(m.unbL), int64(m.unbR)})
-			m.mu.Unlock()
-		}
-		res.tds = append(res.tds, snap)
+		snapTD(op)
 	}
 	res.closeNil = cerr == nil
+	res.cerrTerm = "None"
+	if cerr != nil {
+		res.cerrTerm = cq.Some(errTerm(cerr, b.sentinels))
+		for _, ln := range strings.Split(cerr.Error(), "\n") {
+			res.cerrLine = append(res.cerrLine, lineID(ln))
+		}
+	}
 	ids := []int{}
 	for id := range b.sentinels {
 		ids = append(ids, id)
@@ -1539,18 +1731,20 @@ func memberTerm(m memberIn, c cfgIn) string {
 	return cq.T(cq.Z(int64(m.Kind)), cq.LZ(ps))
 }
 
-func cmTerm(m memberIn) string {
+// the chain as a tree of members with the error each member's Close returns; signed = false: the
+// sentinel errors.Is finds (0 nil); signed = true: id the sentinel value itself, -id a value that wraps it
+func cmTerm(m memberIn, signed bool) string {
 	switch m.Kind {
 	case 16:
 		sub := []string{}
 		for _, s := range m.Sub {
-			sub = append(sub, cmTerm(s))
+			sub = append(sub, cmTerm(s, signed))
 		}
 
 		return cq.C("CChain", cq.L(sub))
 	case 14, 15:
 		id := m.CErr
-		if id < 0 {
+		if id < 0 && !signed {
 			id = -id
 		}
 
@@ -1618,9 +1812,18 @@ func (r *result) toCase() cq.Case {
 	for i, o := range r.cwops {
 		cwops = append(cwops, cq.T(cq.Z(int64(o.pi)), respTerms(in.CWrites[i].Resp), cq.LZ(ints(o.calls)), wresTerm(o.n, o.errs)))
 	}
-	cms := []string{}
+	cms, scms := []string{}, []string{}
 	for _, m := range in.Members {
-		cms = append(cms, cmTerm(m))
+		cms = append(cms, cmTerm(m, false))
+		scms = append(scms, cmTerm(m, true))
+	}
+	vias := []string{}
+	for _, o := range r.wops {
+		st := []string{}
+		for _, x := range o.stray {
+			st = append(st, cq.T(cq.Z(int64(x[0])), cq.Z(int64(x[1]))))
+		}
+		vias = append(vias, cq.T(cq.Z(int64(o.via)), cq.L(st)))
 	}
 	is := []string{}
 	for _, x := range r.is {
@@ -1650,7 +1853,9 @@ func (r *result) toCase() cq.Case {
 	term := cq.T(cfg, cq.L(ms), cq.L(r.tbl.terms), cq.L(wops), cq.L(rterm(in.Reads, r.rops)),
 		cq.L(rterm(in.CReads, r.crops)), cq.L(cwops), cq.L(cms),
 		cq.T(cq.B(r.closeNil), cq.L(is), tri(r.ctrs)), tri(r.counts), cq.LZ(r.flags[:]),
-		cq.L(as), cq.L(is2), cq.L(tds))
+		cq.L(as), cq.L(is2), cq.L(tds),
+		cq.T(cq.L(scms), r.cerrTerm, cq.LZ(r.cerrLine)),
+		cq.T(cq.LZ(r.bssrc), cq.L(vias), cq.LZ(r.unbound)))
 	triv := len(flatten(in.Members)) == 0 || len(in.Writes)+len(in.Reads)+len(in.CReads)+len(in.CWrites) == 0
 
 	return cq.Case{Coq: term, JSON: in, Buckets: r.buckets, Trivial: triv}
